@@ -321,9 +321,14 @@ class CHECK(vlib.Check):
                 "privilege assignment at attach; ReflectServer::EndSession/ClearLameDucks.  Not modelled: ban patterns, default Message "
                 "route and routing-flag parameters, reply contents of GETPARAMETERS/GETDATATREES, JETTISON*, ordered indices "
                 "(INSERTORDEREDDATA/REORDERDATA: harness frame oracle only), sockets and the event loop.")
-    premises = ["MatchLaws of C04/C05 where a theorem names them (clause text equality decidable; a clause reported unique matches exactly its keys)",
+    premises = ["MatchLaws (Refl/BaseProofs.v; C15): clause text equality is decidable, '*' matches every name, a clause reported unique / "
+                "list-of-unique-values matches exactly its keys -- premise of detach_clean and as_if_never (frame_own_subtree needs nothing)",
+                "fx_guard fx = true: the traversal's full-path re-check is skipped only for a single pattern (F12 repair, /repo 63c5c82); the "
+                "extracted model reads which repairs the sources at hand contain from translator flags c_c06_*_as_found",
+                "well-formed histories: a session arrives under a (host, session id) pair no attached session has; fewer than 2^31-1 "
+                "subscription strings are added in total (uint32 counts / int32 deltas of the subscriber tables)",
+                "as_if_never_partial only: no session is granted PR_PRIVILEGE_KICK (a privileged kick is a visible effect by design)",
                 "C03: only complete Messages are dispatched, so a cut after any byte prefix is a cut between commands (exercised byte by byte by the harness)",
-                "well-formed histories: distinct session ids / node names of sessions, fewer than 2^31 subscriptions per session",
                 "memory safety and object lifetime of the C++ (observed by ASan/UBSan in the harness only)"]
     rule = ("multi-client histories from random.Random(seed) with hostile commands (absolute paths and wildcards into other subtrees, '..' names, "
             "privileged what-codes without privilege, forged privilege bits and session fields), departures, and as last op a connection cut "
